@@ -52,6 +52,7 @@ type Result struct {
 	Bad        []Bad
 	Exhaustive bool
 	Restarts   int
+	Recycled   int
 	NotRepro   []Bad // deaths that did not reproduce when re-run alone (reported, never violations)
 }
 
@@ -61,6 +62,7 @@ type request struct {
 }
 
 type response struct {
+	Next    int              `json:"x,omitempty"` // >0: the worker stopped before this index and asks to be replaced (it holds dirty memory)
 	Calls   int64            `json:"n"`
 	ByClass map[string]int64 `json:"c"`
 	Bad     []Bad            `json:"b"`
@@ -189,6 +191,18 @@ func Run(name string, n int, batch int, workers int, perInput time.Duration, dea
 						res.Bad = append(res.Bad, resp.Bad...)
 					}
 					mu.Unlock()
+					if died == nil && resp != nil && resp.Next > 0 {
+						// the worker recycled itself after a call that allocated a lot: a fresh process
+						// gets zeroed pages from the OS for free, a used one has to clear 2 GiB again.
+						mu.Lock()
+						res.Inputs += int64(resp.Next - f)
+						res.Recycled++
+						mu.Unlock()
+						wk.stop()
+						wk = nil
+						f = resp.Next
+						continue
+					}
 					if died == nil {
 						mu.Lock()
 						res.Inputs += int64(t - f)
@@ -347,6 +361,15 @@ func (w *worker) inflight() int {
 	return int(binary.LittleEndian.Uint64(b[:]))
 }
 
+// ticks reads the sub-input progress counter (bumped by Tick between the calls made for one input).
+func (w *worker) ticks() uint64 {
+	var b [8]byte
+	if _, err := w.progress.ReadAt(b[:], 8); err != nil {
+		return 0
+	}
+	return binary.LittleEndian.Uint64(b[:])
+}
+
 // do sends one batch; it returns the response, or (partial nil, the in-flight input) when the
 // worker died or stalled.
 func (w *worker) do(from, to int, perInput time.Duration) (*response, *Bad) {
@@ -354,6 +377,7 @@ func (w *worker) do(from, to int, perInput time.Duration) (*response, *Bad) {
 	_, _ = w.in.Write(append(b, '\n'))
 	_ = w.in.Flush()
 	last := -2
+	lastTick := uint64(0)
 	lastChange := time.Now()
 	tick := time.NewTicker(200 * time.Millisecond)
 	defer tick.Stop()
@@ -376,8 +400,9 @@ func (w *worker) do(from, to int, perInput time.Duration) (*response, *Bad) {
 			return &r, nil
 		case <-tick.C:
 			cur := w.inflight()
-			if cur != last {
-				last, lastChange = cur, time.Now()
+			tk := w.ticks()
+			if cur != last || tk != lastTick {
+				last, lastTick, lastChange = cur, tk, time.Now()
 			} else if time.Since(lastChange) > perInput {
 				idx := cur
 				if idx < from || idx >= to {
@@ -457,6 +482,21 @@ func deathSite(stderr string) string {
 	return ""
 }
 
+var tickFile *os.File
+var tickCount uint64
+
+// Tick records progress inside one input (call it between the entry points run for one input), so
+// that the stall deadline applies to a single call and not to their sum.
+func Tick() {
+	if tickFile == nil {
+		return
+	}
+	tickCount++
+	var b [8]byte
+	binary.LittleEndian.PutUint64(b[:], tickCount)
+	_, _ = tickFile.WriteAt(b[:], 8)
+}
+
 // serve is the worker loop.
 func serve(fn Fn) {
 	debug.SetMaxStack(64 << 20)
@@ -465,6 +505,7 @@ func serve(fn Fn) {
 		fmt.Fprintln(os.Stderr, "iso worker: cannot open progress file:", err)
 		os.Exit(3)
 	}
+	tickFile = pf
 	in := bufio.NewReaderSize(os.Stdin, 1<<16)
 	out := bufio.NewWriter(os.Stdout)
 	var pb [8]byte
@@ -481,12 +522,18 @@ func serve(fn Fn) {
 		for i := rq.From; i < rq.To; i++ {
 			binary.LittleEndian.PutUint64(pb[:], uint64(i))
 			_, _ = pf.WriteAt(pb[:], 0)
+			heavy := false
 			for _, o := range fn(i) {
 				resp.Calls++
 				resp.ByClass[o.Class]++
-				if o.Class != "ok" && o.Class != "error" && len(resp.Bad) < 2000 {
+				if o.Class != "ok" && o.Class != "error" && !strings.HasPrefix(o.Class, "deferred") && len(resp.Bad) < 2000 {
 					resp.Bad = append(resp.Bad, Bad{Index: i, Class: o.Class, Site: o.Site, Tag: o.Tag})
 				}
+				heavy = heavy || o.Alloc > 32<<20
+			}
+			if heavy {
+				resp.Next = i + 1
+				break
 			}
 		}
 		b, _ := json.Marshal(&resp)
